@@ -3,7 +3,7 @@
 of the property it breaks: applies the patch to /repo, runs the quick tier,
 reverts, and records the outcome in seeded/<name>/meta.json (`detected_by`).
 
-usage: tools/seeded_matrix.py [name ...] [--also C05,C12]   (default: all)
+usage: tools/seeded_matrix.py [name ...] [--also C05,C12] [--dry]   (default: all; --dry: do not record)
 Never leaves /repo modified; refuses to start when /repo is not clean.
 """
 import json
@@ -56,6 +56,8 @@ def run_one(name, props):
     finally:
         sh("git -C %s checkout -- ." % REPO)
         os.remove(tmp)
+    if "--dry" in sys.argv:      # e.g. a run under another VERIF_SEED: report only
+        return results
     meta["detected_by"] = results
     json.dump(meta, open(os.path.join(d, "meta.json"), "w"), indent=1)
     return results
